@@ -45,8 +45,7 @@ def drive(ctx, drv, conf, moves, name):
     mp = os.path.join(ctx.work, name + '-moves.json')
     vlib.write_json(mp, moves)
     out = json.loads(ctx.run([drv, 'replay', conf, mp]).stdout)
-    c = conf.split(':')
-    seg = [dict(ev='reset', nw=int(c[0]), pre=c[4] == '1')]
+    seg = [conf_reset(conf)]
     for st in out['steps']:
         if st.get('error'):
             return None
@@ -83,15 +82,36 @@ def probe_f25(ctx, drv):
 
 
 
+def copts(c):
+    """options of a configuration tuple (nw, targets, maxg, maxf, pre[, dict(clear=, preq=)])"""
+    o = dict(clear=True, preq=0)
+    if len(c) > 5:
+        o.update(c[5])
+    return o
+
+
 def mcfg(c, invariants=INV, properties=()):
-    nw, tgt, maxg, maxf, pre = c
-    return cfg(constants=dict(NW=nw, Target='<- T_' + ''.join(str(t) for t in tgt), MaxG=maxg, MaxF=maxf, PreAttach=pre),
+    nw, tgt, maxg, maxf, pre = c[:5]
+    o = copts(c)
+    return cfg(constants=dict(NW=nw, Target='<- T_' + ''.join(str(t) for t in tgt), MaxG=maxg, MaxF=maxf, PreAttach=pre,
+                              ClearOK=o['clear'], PreQ=o['preq']),
                invariants=invariants, properties=properties)
 
 
 def dcfg(c):
-    nw, tgt, maxg, maxf, pre = c
-    return '%d:%s:%d:%d:%d' % (nw, ','.join(str(t) for t in tgt), maxg, maxf, 1 if pre else 0)
+    nw, tgt, maxg, maxf, pre = c[:5]
+    o = copts(c)
+    ol = ([] if o['clear'] else ['a']) + (['q%d' % o['preq']] if o['preq'] else [])
+    return '%d:%s:%d:%d:%d' % (nw, ','.join(str(t) for t in tgt), maxg, maxf, 1 if pre else 0) + (':' + ','.join(ol) if ol else '')
+
+
+def conf_reset(conf, **kw):
+    """reset event for a driver configuration string"""
+    p = conf.split(':')
+    q = [int(x[1:]) for x in (p[5].split(',') if len(p) > 5 else []) if x.startswith('q')]
+    d = dict(ev='reset', nw=int(p[0]), pre=p[4] == '1', preq=q[0] if q else 0)
+    d.update(kw)
+    return d
 
 
 def seq(v):
@@ -111,7 +131,9 @@ def model_key(st):
 
 
 def real_key(st):
-    return '|'.join(str(x) for x in (
+    if st.get('aborted'):
+        return 'aborted'
+    return ('stuck(%s)' % st['stuck'] if st.get('stuck') else '') + '|'.join(str(x) for x in (
         st['ws'], st['shared'], st['local'], st['waitingG'], st['parked'], st['pcF'], st['fblock'], st['fw'], st['fops'],
         st['nadd'], st['sp'], st['sv'], st['dq'], st['pend'], st['inDone'], st['pcG'], st['gv'], st['gg'], st['gops']))
 
@@ -127,12 +149,6 @@ def model_label(lab):
     if args:
         return 'Step(%d)' % int(args[0])
     return 'Step(0)'
-
-
-def reset_ev(c, **kw):
-    d = dict(ev='reset', nw=c[0], pre=bool(c[4]))
-    d.update(kw)
-    return d
 
 
 def pgraph(ctx, c, g, name, tol, corrupt=False):
@@ -156,7 +172,7 @@ def pgraph(ctx, c, g, name, tol, corrupt=False):
     if not done:
         raise vlib.Inconclusive('graph self-test: no successful Fetch in the real graph %s' % dcfg(c))
     text = ''.join(json.dumps(dict(out=out[k])) + '\n' for k in keys)
-    gc = cfg(spec='GSpec', constants=dict(GNW=c[0], GPre=bool(c[4]), GInit=idx[g['init']], TolerateF25=bool(tol)))
+    gc = cfg(spec='GSpec', constants=dict(GNW=c[0], GPre=bool(c[4]), GPreQ=copts(c)['preq'], GInit=idx[g['init']], TolerateF25=bool(tol)))
     r = ctx.tlc('GraphSleepProp', gc, SPEC, name=name, files={'graph.ndjson': text}, nodeadlock=False, timeout=3000,
                 count=not corrupt)
     if r.ok:
@@ -208,6 +224,12 @@ def graph_part(ctx, drv, c, tag, tol):
             dcfg(c), json.dumps(bad['rejected'])), dict(kind='graph path', config=dcfg(c), moves=bad['moves'], events=bad['events']))
     ctx.sample(dict(kind='real-graph-edges', config=dcfg(c),
                     edges=[dict(move=e['label'], events=e['events']) for e in g['edges'][:6]]))
+    ctx.extra.setdefault('watchdog', {})[tag] = dict(stuck=g.get('stuck', 0), aborted=bool(g.get('aborted')))
+    if g.get('stuck') or g.get('aborted'):
+        ctx.model_drift('real pkg/sleep (%s): %d histories abandoned by the watchdog (a call did not come back)%s' % (
+            dcfg(c), g.get('stuck', 0), '; exploration aborted' if g.get('aborted') else ''))
+        msg = None if bad is not None else 'watchdog hit (%s) but the P-spec accepted every path: %s' % (dcfg(c), g.get('stuck'))
+        return g, msg if g.get('aborted') else None, bad is not None
     if g.get('nondeterminism'):
         return g, 'real code not deterministic under the gate scheduler (%s): %s' % (dcfg(c), g['nondeterminism'][:2]), bad is not None
     # ---- I-level: graph equality (drift only)
@@ -237,7 +259,7 @@ def selftest_traces(base):
             del b[i]
             break
     tests['drop-call'] = b
-    r0 = dict(ev='reset', nw=1, pre=True)
+    r0 = dict(ev='reset', nw=1, pre=True, preq=0)
     A = lambda p, ev, **kw: dict(ev=ev, p=p, **kw)
 
     def O(asserted=(), parked=False, dirty=False):
@@ -264,7 +286,14 @@ def selftest_traces(base):
         op(0, 'Fetch', after=[1], block=False, id=-1, ok=False) + [A(1, 'ret', op='Assert', w=1)] + \
         [A(0, 'call', op='Fetch', block=True), O([1], parked=False), O([]), A(0, 'ret', op='Fetch', id=1, ok=True, block=True)] + \
         op(0, 'Done') + [dict(ev='reattach', old=[], new=[[1, 101, True, -1, False]])]
-    return good, tests
+    # watchdog events: a call that spins never returns; a non-blocking call may not even sleep; a blocking Fetch with
+    # nothing asserted may sleep for ever (legal)
+    tests['stuck-spinning'] = [r0, A(0, 'call', op='Fetch', block=True), O(), dict(ev='stuck', p=0, op='Fetch', state='spinning')]
+    tests['stuck-assert'] = [r0, A(1, 'call', op='Assert', w=1), O(), dict(ev='stuck', p=1, op='Assert', state='parked')]
+    tests['stuck-lost-wake'] = [r0] + op(1, 'Assert', after=[1], w=1) + [A(0, 'call', op='Fetch', block=True), O([1]),
+                                                                         dict(ev='stuck', p=0, op='Fetch', state='parked')]
+    good2 = [r0, A(0, 'call', op='Fetch', block=True), O(), dict(ev='stuck', p=0, op='Fetch', state='parked')]
+    return [good, good2], tests
 
 
 def run(ctx):
@@ -299,9 +328,12 @@ def run(ctx):
 
     # ---- E1 + E2 + P-level: model graph vs complete real-code graph (drift); every path of the real graph
     # ---- against the P-spec (violations)
-    gconfs = ctx.pick([('a', (1, (1, 1), 1, 1, True)), ('c', (1, (1,), 1, 1, False))],
+    # 'e': two goroutines on the SAME waker (w2) while another waker (w1) is already queued; 'f': the same race with
+    # the third waker queued by a third goroutine (Assert only, the sleeper only calls Done)
+    gconfs = ctx.pick([('a', (1, (1, 1), 1, 1, True)), ('e', (2, (2, 2), 1, 1, True, dict(preq=1))), ('c', (1, (1,), 1, 1, False))],
                       [('a', (1, (1, 1), 2, 1, True)), ('b', (2, (1, 2), 1, 2, False)), ('c', (2, (1, 2), 1, 1, True)),
-                       ('d', (1, (1,), 1, 1, False))])
+                       ('d', (1, (1,), 1, 1, False)), ('e', (2, (2, 2), 1, 1, True, dict(preq=1))),
+                       ('f', (2, (1, 2, 2), 1, 0, True, dict(clear=False)))])
     nondet, grej, small = [], False, None
     for tag, c in gconfs:
         g, nd, bad = graph_part(ctx, drv, c, tag, tol)
@@ -326,7 +358,7 @@ def run(ctx):
         seed = ctx.seed * 1000 + k
         ctx.run([drv, 'random', rc_, str(runs), str(seed), tp], timeout=3000)
         for sg in vlib.split_segments(vlib.read_ndjson(tp)):
-            batch.append(([dict(ev='reset', nw=sg[0]['nw'], pre=sg[0]['pre'], run=sg[0]['run'])] + sg[1:],
+            batch.append(([conf_reset(sg[0]['config'], run=sg[0]['run'])] + sg[1:],
                           dict(kind='random schedule', config=sg[0]['config'], moves=sg[0]['moves'], seed=seed, run=sg[0]['run'])))
     ctx.extra['random_schedules'] = len(batch) - ngraph
     ctx.sample(dict(kind='random-schedule', config=batch[ngraph][1]['config'], events=batch[ngraph][0][:14]))
@@ -390,14 +422,14 @@ def run(ctx):
             break
     if base is None:
         raise vlib.Inconclusive('binding self-test: no random run with a successful Fetch')
-    good, tests = selftest_traces(base)
-    names = sorted(tests) if ctx.thorough() else ['corrupt-id']
-    a, rj = vlib.validate_segments(ctx, 'TraceSleepProp', tcfg(True), SPEC, [good] + [tests[n] for n in names], name='selftest',
-                                   count=False, max_reruns=len(names) + 2)
+    goods, tests = selftest_traces(base)
+    names = sorted(tests) if ctx.thorough() else ['corrupt-id', 'stuck-spinning']
+    a, rj = vlib.validate_segments(ctx, 'TraceSleepProp', tcfg(True), SPEC, goods + [tests[n] for n in names], name='selftest',
+                                   count=False, max_reruns=len(names) + 3)
     rejected = set(si for si, _ln in rj)
-    if 0 in rejected:
+    if rejected & set(range(len(goods))):
         raise vlib.Inconclusive('binding self-test failed: a legal hand-written trace is rejected')
-    missed = [n for i, n in enumerate(names) if i + 1 not in rejected]
+    missed = [n for i, n in enumerate(names) if i + len(goods) not in rejected]
     if missed:
         raise vlib.Inconclusive('binding self-test failed: bad traces accepted: %s' % missed)
     if pgraph(ctx, small[0], small[1], 'selftest-graph', True, corrupt=True) is None:
